@@ -132,7 +132,10 @@ theorem C08_encodeData_reload (T : Tables) (hT : TablesOk T) (ids : List Nat) (t
 
 
 /-! ### non-vacuity: a concrete template with 201, nested replication, a bitmap and marker operators -/
-namespace C08Ex
+end Bufr
+
+namespace Bufr.C08Ex
+open Bufr Bufr.C08 Bufr.C08W Bufr.C08D
 
 def e1 : Elem := { id := 1001, kind := .numeric, nbits := 7, scale := 0, ref := 0 }
 def e2 : Elem := { id := 12001, kind := .numeric, nbits := 12, scale := 1, ref := 0 }
@@ -224,6 +227,4 @@ example (p : List Stmt) (hp : compile tmpl = .ok p) :
 example : opFreeL [.seq 301001 [.fixedRep 102002 [.elem e1, .delayedRep 101000 (.elem eF) [.elem e2]]]] = true := by
   decide
 
-end C08Ex
-
-end Bufr
+end Bufr.C08Ex
